@@ -267,10 +267,21 @@ def run(tier, seed, replay=None):
     import struct as _st
     import e2e
     import c06
-    addrs = [("v4-loopback", "127.0.0.1", _s.AF_INET), ("v6-loopback", "::1", _s.AF_INET6)]
+    def can_bind(a, fam):
+        try:
+            t_ = _s.socket(fam, _s.SOCK_STREAM)
+            t_.bind((a, 0))
+            t_.close()
+            return True
+        except OSError:
+            return False
+    addrs = [("v4-loopback", "127.0.0.1", _s.AF_INET)]
+    if can_bind("::1", _s.AF_INET6):
+        addrs.append(("v6-loopback", "::1", _s.AF_INET6))
     g6 = c06.global_ipv6()
-    if g6:
+    if g6 and can_bind(g6, _s.AF_INET6):
         addrs.append(("v6-global", g6, _s.AF_INET6))
+    have_dual = can_bind("::", _s.AF_INET6)
     org_a = e2e.Server(e2e.echo_handler)
     ls, rules_a, ports_a = [], [], {}
     for name, a, fam in addrs:
@@ -283,13 +294,14 @@ def run(tier, seed, replay=None):
             name, name, a, a, pre), "target": "direct"})
     # a dual-stack listener reached over IPv4: the client is an IPv4 client
     ports_a[("dual", "socks")] = e2e.free_port()
-    ls.append({"name": "socks-dual", "type": "socks", "bind": "[::]:%d" % ports_a[("dual", "socks")]})
+    if have_dual:
+        ls.append({"name": "socks-dual", "type": "socks", "bind": "[::]:%d" % ports_a[("dual", "socks")]})
     rules_a.append({"filter": "request.listener == \"socks-dual\" && request.source.host == \"127.0.0.1\" && cidr_match(request.source.host, \"127.0.0.0/8\")", "target": "direct"})
     pa = e2e.Proxy(driver, ls, [{"name": "direct"}], rules_a, metrics=True, name="c02-attrs")
     attr_stats = {}
     try:
         pa.start()
-        cases_a = [(n_, k_, a_, f_) for n_, a_, f_ in addrs for k_ in ("socks", "http")] + [("dual", "socks", "127.0.0.1", _s.AF_INET)]
+        cases_a = [(n_, k_, a_, f_) for n_, a_, f_ in addrs for k_ in ("socks", "http")] + ([("dual", "socks", "127.0.0.1", _s.AF_INET)] if have_dual else [])
         for name, kind, a, fam in cases_a:
             c = _s.socket(fam, _s.SOCK_STREAM)
             c.settimeout(4)
